@@ -4,9 +4,11 @@ import json, os, glob, subprocess
 ROOT = os.path.dirname(os.path.dirname(os.path.abspath(__file__)))
 ids = [json.loads(l)["id"] for l in open(os.path.join(ROOT, "properties.jsonl"))]
 checks, claimed = [], set()
+# the lead lists a property here once its check has been run on the unchanged tree and integrated
+integrated = set(open(os.path.join(ROOT, "tools", "claimed.txt")).read().split())
 for p in sorted(glob.glob(os.path.join(ROOT, "props", "C*.json"))):
     c = json.load(open(p))
-    if c.get("disabled"):
+    if c.get("disabled") or c["id"] not in integrated:
         continue
     claimed.add(c["id"])
     checks.append({
